@@ -239,7 +239,7 @@ GChars(u)  == Pick({E, A, B, AB, <<"b", "a">>, <<"a", "b", "a">>, <<"c">>, <<" "
 GStrLit(u) == SLit(GChars(u))
 GAnyVar(u) == Pick(LocalNames \cup HdrNames \cup {"g0"})
 \* the empty literal is rare on purpose: the regex engine falco uses never reports an empty match (known finding)
-GRegex(u)  == Re(Chance(1, 3), IF Chance(1, 12) THEN E ELSE Pick({A, B, AB, <<"b", "a">>}), Chance(1, 3))
+GRegex(u)  == Re(Chance(1, 3), IF Chance(1, 40) THEN E ELSE Pick({A, B, AB, <<"b", "a">>}), Chance(1, 3))
 GBoolVar(u) == Pick({"b1", "b2"})
 CmpOps == {"==", "!=", "<", ">", "<=", ">="}
 
@@ -299,13 +299,15 @@ GSimple(u) ==
     [] r = 18  -> Unset(Pick(HdrNames))
     [] OTHER   -> Log(GStrExp(u))
 
-RECURSIVE GStmt(_), GBlock(_, _)
+RECURSIVE GStmt(_), GBlock(_, _), GCaseSeq(_), GBody(_, _)
 GBlock(d, n) == IF n = 0 THEN <<>> ELSE <<GStmt(d)>> \o GBlock(d, n - 1)
-GCaseSeq(u) ==
+\* a case body: nested statements while depth is left (an if inside a case inside an if ...)
+GBody(d, i) == IF d > 0 /\ Chance(1, 2) THEN GBlock(d - 1, Pick(1..2)) ELSE <<GSimple(i)>>
+GCaseSeq(d) ==
   LET ts == Pick(TestSeqs)
       n  == Len(ts)
-      cs == [i \in 1..n |-> IF ts[i].re THEN CaseRe(ts[i].pat, <<GSimple(i)>>, Chance(1, 3)) ELSE CaseLit(ts[i].lit, <<GSimple(i)>>, Chance(1, 3))]
-      cd == IF Chance(2, 3) THEN InsertAt(cs, Pick(0..n), CaseDflt(<<GSimple(u)>>, Chance(1, 3))) ELSE cs IN
+      cs == [i \in 1..n |-> IF ts[i].re THEN CaseRe(ts[i].pat, GBody(d, i), Chance(1, 3)) ELSE CaseLit(ts[i].lit, GBody(d, i), Chance(1, 3))]
+      cd == IF Chance(2, 3) THEN InsertAt(cs, Pick(0..n), CaseDflt(GBody(d, 0), Chance(1, 3))) ELSE cs IN
   [cd EXCEPT ![Len(cd)].ft = FALSE]
 GStmt(d) ==
   LET r == Pick(1..10) IN
@@ -347,7 +349,11 @@ Fam(key) == IF Mode = "cells" THEN CellFam(key) ELSE ShapeFam(key)
 Expected(p) == Run(p.stmts, M0)
 Obs(M) == [st |-> M.st, S |-> M.S, nlogs |-> Len(M.logs), lastlog |-> IF Len(M.logs) = 0 THEN <<>> ELSE M.logs[Len(M.logs)]]
 ObsSeq(x) == [i \in 1..Len(x) |-> Obs(x[i])]
-Emit(p, o) == PrintT(<<"BEHAVIOUR", ToJson([scope |-> p.scope, tag |-> p.tag, stmts |-> p.stmts, exp |-> o])>>)
+\* what a header receives when the final value of a pooled variable is assigned to it (whole-program replay: the
+\* program runs inside a subroutine frame and exports its variables to headers before it returns)
+FinVal(v) == IF v.t \in {"BITS", "UNDECL"} THEN [t |-> "SKIP"] ELSE StrOp("=", NotSetV, v, TRUE)
+Fin(o) == IF Len(o) = 0 THEN [n \in Names |-> [t |-> "SKIP"]] ELSE [n \in Names |-> FinVal(o[Len(o)].S[n])]
+Emit(p, o) == PrintT(<<"BEHAVIOUR", ToJson([scope |-> p.scope, tag |-> p.tag, stmts |-> p.stmts, exp |-> o, fin |-> Fin(o)])>>)
 
 VARIABLES phase,   \* "part" -> "emit" (cells / shapes) ; "start" -> "gen" -> "done" (sim)
           item,    \* a family key, a program, or the program under construction
